@@ -65,6 +65,14 @@ func genC08(r *rand.Rand, run int, tier string) *vm.Plan {
 			}
 			k := h.pick(blks)
 			p := blkParent[k]
+			if q := h.pick(h.honest); r.Intn(6) == 0 && q != p {
+				// a block built for one member of the family offered to another: refused (symbol
+				// overlap) or accepted, and either way nobody else changes
+				t := h.add(vm.Op{K: "append", A: q, B: k, Ent: entropy(r), Out: h.slot()})
+				h.toks = append(h.toks, t)
+				h.tokKey[t] = key
+				continue
+			}
 			t := h.add(vm.Op{K: "append", A: p, B: k, Ent: entropy(r), Out: h.slot()})
 			h.toks = append(h.toks, t)
 			h.honest = append(h.honest, t)
